@@ -47,13 +47,20 @@ def compare(outcome, stdout, rr):
     return None
 
 
+def files_of(p, minimal=False):
+    """source files of a program: two modules when the generator split it"""
+    if p.get("as_modules"):
+        return gen.pp_modules(p, minimal=minimal)
+    return {"main.ddp": gen.pp_program(p, minimal=minimal)}
+
+
 def run_programs(ddp, programs, cfgs, minimal=False, timeout=10):
     """compile+run every program under every config; returns list (per program) of lists of RunResult"""
     jobs = []
     for p in programs:
-        src = gen.pp_program(p, minimal=minimal)
+        files = files_of(p, minimal=minimal)
         for cfg in cfgs:
-            jobs.append(({"main.ddp": src}, cfg, {"timeout": timeout}))
+            jobs.append((files, cfg, {"timeout": timeout}))
     res = pipeline.farm(ddp, jobs)
     k = len(cfgs)
     return [res[i * k:(i + 1) * k] for i in range(len(programs))]
